@@ -6,7 +6,7 @@ import numpy as np
 
 from .. import gen
 from .. import xforms as X
-from ..monitor.gradpath import GradPath
+from ..monitor.gradpath import GradPath, cast_monitor
 from ..oracle import fields as F
 
 PROPERTY = "C20"
@@ -18,11 +18,13 @@ RULE = (
     "flow_derivatives, jacobian_det, divergence, curl; all image and flow losses. For each operation and random "
     "generic input (no sample on a grid line or on the clamping boundary) the output is scalarised with fixed random "
     "weights and the autograd directional derivative along 6 unit directions (alternately random and leaning "
-    "towards the returned gradient) is compared with central differences at steps h and h/2. The evaluation noise "
-    "is measured per direction from the residual of the function against its own tangent at steps 1e-4 h; a "
-    "direction is decided with float64 steps (h=1e-6, rtol 1e-5) when estimates agree and the noise is small, "
-    "otherwise - the operation casts to float32 somewhere - with float32 steps (h=5e-3, rtol 3e-2); a direction "
-    "that neither step size decides crossed a kink and is inconclusive, never a violation. Also required: the "
+    "towards the returned gradient) is compared with central differences at steps h and h/2. A torch function mode "
+    "(monitor.gradpath.cast_monitor) observes whether a float32 tensor requiring grad is produced inside the "
+    "operation: if not, float64 steps (h=1e-6, rtol 1e-5) are used, otherwise - the operation casts - float32 steps "
+    "(h=5e-3, rtol 3e-2, tolerance floor 5 % of the gradient norm). The evaluation noise is measured per direction "
+    "from the residual of the function against its own tangent at steps 1e-4 h; a direction whose two estimates "
+    "disagree or whose noise is large lies within h of "
+    "a kink and is inconclusive, never a violation. Also required: the "
     "output is attached to the graph, every parameter receives a gradient, all gradients finite. Non-trivial: "
     "every (operation, input) pair with a non-zero derivative; distinct = hash of operation name and case index."
 )
@@ -90,7 +92,8 @@ def gradcheck(ctx, name, params, evaluate, info, n_dirs=6, f32=False, key_suffix
     import torch
 
     rng = ctx.rng("gradcheck")
-    with GradPath() as gp:
+    cm = cast_monitor()
+    with GradPath() as gp, cm:
         out = evaluate()
     if isinstance(out, (tuple, list)):
         out = torch.cat([o.reshape(-1) for o in out])
@@ -119,9 +122,13 @@ def gradcheck(ctx, name, params, evaluate, info, n_dirs=6, f32=False, key_suffix
             return
         if not ctx.true("gradient_finite", bool(torch.isfinite(g).all()), key=f"grad/{name}/nonfinite{key_suffix}", param=i, **info):
             return
-    # step ladder: float64 steps first; a path that casts to float32 internally is noisy at h=1e-6 and is then
-    # decided with float32 steps and tolerance (the quantifier allows "float32 with matching step sizes")
-    ladder = ([] if out_f32 else [(1e-6, 1e-5, 1e-9, "f64")]) + [(5e-3, 3e-2, 1e-4, "f32")]
+    # float64 steps when the whole differentiable path runs in float64; float32 steps when the operation returns
+    # float32 or the cast monitor saw a float32 tensor requiring grad inside it (the quantifier allows "float32 with
+    # matching step sizes where it casts"). Decided by observation of the running code, not by the noise of the result.
+    casts = out_f32 or cm.float32_grad_tensors > 0
+    if casts and not out_f32:
+        ctx.count(f"float32_inside_float64_op/{name}")
+    ladder = [(5e-3, 3e-2, 1e-4, "f32")] if casts else [(1e-6, 1e-5, 1e-9, "f64")]
     gnorm = float(sum((g.double() ** 2).sum() for g in grads) ** 0.5)
     scale = float(sum((p.detach().double() ** 2).sum() for p in params) ** 0.5) / max(1.0, float(sum(p.numel() for p in params)) ** 0.5) + 1e-2
     conclusive = 0
@@ -152,24 +159,26 @@ def gradcheck(ctx, name, params, evaluate, info, n_dirs=6, f32=False, key_suffix
 
         s0 = shifted(0.0)
         decided = False
+        rejected = None
         for h, rtol, atol, tag in ladder:
             hh = h * max(scale, 1.0) if tag == "f32" else h
             f1, f2 = fd(hh), fd(hh / 2)
-            ref = max(abs(f1), abs(f2), abs(dd), 1e-3 * gnorm, 1e-12)
+            # float32 steps cross interpolation kinks: their error scales with the gradient norm, not with the
+            # (possibly tiny) derivative along a random direction; the gradient-aligned directions carry the signal
+            ref = max(abs(f1), abs(f2), abs(dd), (0.05 if tag == "f32" else 1e-3) * gnorm, 1e-12)
             # measured evaluation noise: residual of the function against its own tangent at steps far below h
             sigma = max(abs(shifted(t * hh) - s0 - t * hh * f2) for t in (1e-4, -2e-4, 3e-4))
             noise = 2 * sigma / hh
-            if abs(f1 - f2) > rtol * ref + atol or noise > 0.3 * (rtol * ref + atol):
-                continue
+            if noise > 0.3 * (rtol * ref + atol) or abs(f1 - f2) > rtol * ref + atol:
+                rejected = dict(steps=tag, noise=noise, fd_h=f1, fd_h2=f2)
+                break  # the function is not smooth within h of this point along this direction (kink): inconclusive
             decided = True
             conclusive += 1
             ctx.bucket("conclusive_directions")
             ctx.bucket(f"steps/{tag}")
-            if tag == "f32" and not out_f32:
-                ctx.count(f"float32_steps_on_float64_output/{name}")
             if abs(f2) > 1e-6 * ref or abs(dd) > 1e-6 * ref:
                 nonzero = True
-            ctx.close("directional_derivative_equals_finite_difference", dd, f2, rtol * ref + atol + 3 * abs(f1 - f2) + noise, key=f"grad/{name}/mismatch{key_suffix}", fd_h=f1, fd_h2=f2, autograd=dd, steps=tag, noise=noise, sites=gp.sites(), **info)
+            ctx.close("directional_derivative_equals_finite_difference", dd, f2, rtol * ref + atol + 3 * abs(f1 - f2) + noise, key=f"grad/{name}/mismatch{key_suffix}", fd_h=f1, fd_h2=f2, autograd=dd, steps=tag, noise=noise, rejected=rejected, gnorm=gnorm, direction="aligned" if k % 2 else "random", sites=gp.sites(), **info)
             break
         if not decided:
             ctx.count("inconclusive_directions")
